@@ -826,12 +826,19 @@ func runDowngrade(t *testing.T, sc Scenario) *core.Result {
 				defer rc.Close()
 				u, _ := base.ParseURL(scheme + "://10.0.0.1:8554/stream/trackID=0")
 				var tr string
+				noKeys := false
 				if sc.Case == 0 {
 					// secure profile over plain RTSP (keys would travel in clear)
 					tr = []string{"RTP/SAVP;unicast;client_port=35000-35001", "RTP/SAVP/TCP;unicast;interleaved=0-1"}[int(sc.Seed)%2]
 				} else {
 					// unencrypted UDP (unicast or multicast) over RTSPS
 					tr = []string{"RTP/AVP;unicast;client_port=35000-35001", "RTP/AVP;multicast", "RTP/AVP/UDP;multicast"}[int(sc.Seed/2)%3]
+					// ... or the secure profile without any key material (no KeyMgmt header): what the
+					// peer then sends could neither be decrypted nor authenticated
+					if core.HS(sc.Seed, "c17.nokeymgmt", "", 0)%3 == 0 {
+						tr = []string{"RTP/SAVP;unicast;client_port=35000-35001", "RTP/SAVP/TCP;unicast;interleaved=0-1"}[int(sc.Seed/2)%2]
+						noKeys = true
+					}
 				}
 				hdr := base.Header{"Transport": base.HeaderValue{tr}}
 				if sc.Case == 0 {
@@ -852,6 +859,8 @@ func runDowngrade(t *testing.T, sc Scenario) *core.Result {
 				if err == nil && resp.StatusCode >= 200 && resp.StatusCode < 300 {
 					if sc.Case == 0 {
 						w.Fail("c17/downgrade accepted", "SETUP with the secure profile (%s) was accepted over plain RTSP: status %d", tr, resp.StatusCode)
+					} else if noKeys {
+						w.Fail("c17/downgrade accepted", "SETUP with the secure profile (%s) and no KeyMgmt header was accepted over RTSPS: status %d (media from this peer would be taken in clear)", tr, resp.StatusCode)
 					} else {
 						w.Fail("c17/downgrade accepted", "SETUP with unencrypted UDP (%s) was accepted over RTSPS: status %d", tr, resp.StatusCode)
 					}
@@ -909,7 +918,8 @@ func runDowngrade(t *testing.T, sc Scenario) *core.Result {
 								res.Header["Public"] = base.HeaderValue{"DESCRIBE, SETUP, PLAY"}
 							} else {
 								res.StatusCode = []base.StatusCode{301, 302}[int(sc.Seed)%2]
-								res.Header["Location"] = base.HeaderValue{"rtsp://10.0.0.1:8555/stream"}
+								// (schemes are case-insensitive: RTSP://, Rtsp:// are the same downgrade)
+								res.Header["Location"] = base.HeaderValue{[]string{"rtsp", "rtsp", "RTSP", "Rtsp", "rTsP"}[core.HS(sc.Seed, "c17.redirect.scheme", "", 0)%5] + "://10.0.0.1:8555/stream"}
 							}
 							co.WriteResponse(res) //nolint:errcheck
 						}
